@@ -181,6 +181,16 @@ def run(program, rep, tier):
                          'World.__init__', 'constructor not analysed')
     relay_target(program, rep)
     clear_total(program, rep)
+    # which callbacks a component "declares" is read from its class's
+    # __events__: decorating a subclass must not change what its base (and its
+    # siblings) declare (the C03 mapping rule)
+    from rules import c03
+    rep.borrow(c03.check_mapping, program, rep,
+               keep=lambda o: o.rule == 'C03.mapping',
+               rename=lambda r: 'C02.mapping',
+               why='a component class ends up declaring on_add / on_remove '
+               'callbacks it does not have (attaching it raises, or a foreign '
+               'method is called as on_remove)')
     # postponed callbacks are released once, in order (the C04 release rules)
     from rules import c04
     n0 = len(rep.obs)
